@@ -2,9 +2,12 @@
 Property theorems for SlidingTilePuzzle (all grid sizes `n`, all boards).  Helper lemmas and proofs live in
 Env/SlidingTilePuzzle/Lemmas.lean.  `Inv n b` = the board is `n × n`, the stored blank position is on the
 board and holds the blank (0).  Actions are `a < 4` (the action spec).
+Wave 2 (audit r3): Env/SlidingTilePuzzle/Episode.lean (declared specs as `Sp` values and membership, step / reset protocol,
+existence of generator draws and size 1, full effect of an ignored move, sparse / dense episode returns, whole episodes `run`).
 -/
 import JumanjiModel.Env.SlidingTilePuzzle.Lemmas
 import JumanjiModel.Env.SlidingTilePuzzle.Bounds
+import JumanjiModel.Env.SlidingTilePuzzle.Episode
 open Jm Jx SlidingTilePuzzle
 
 namespace Props.C04
@@ -21,9 +24,24 @@ example : legal 3 ⟨[[1, 2, 3], [4, 0, 6], [7, 5, 8]], (1, 1), 0⟩ 0 ∧ ¬ le
 end Props.C04
 
 namespace Props.C05
-/-- an illegal move is ignored: board and blank untouched, only the step is counted, and the episode ends
-only for another cause (the board is the goal already, or the time limit) -/
-theorem sliding_illegal_ignored (cfg : Cfg) (s : State) (a : Nat) (ha : a < 4) (hl : ¬ legal cfg.n s a) :
+/-- an illegal move is ignored — the FULL documented effect (audit r3 entry 13): on a well-formed board the successor state
+is the old state with only the step counted; the observation shows the old board, the old blank position, the old (unchanged)
+mask and the new step count; the reward is 0 under the dense reward function and, under the sparse one, 1 iff the (unchanged)
+board is the goal; and the step is LAST exactly for another cause (the board is the goal already, or the time limit) -/
+theorem sliding_illegal_ignored (cfg : Cfg) (s : State) (a : Nat) (ha : a < 4) (hi : Inv cfg.n s.board)
+    (hl : ¬ legal cfg.n s a) :
+    (step cfg s (a : Int)).1 = { s with stepCount := s.stepCount + 1 } ∧
+    (step cfg s (a : Int)).2.obs =
+      { puzzle := s.puzzle, empty := s.empty, mask := validActions cfg.n s.empty, stepCount := s.stepCount + 1 } ∧
+    (step cfg s (a : Int)).2.reward = [if cfg.dense then 0 else if s.puzzle = goal cfg.n then 1 else 0] ∧
+    ((step cfg s (a : Int)).2.stepType = .last ↔ (s.puzzle = goal cfg.n ∨ cfg.timeLimit ≤ s.stepCount + 1)) :=
+  illegal_ignored_full cfg s ha hi hl
+
+example : Inv 3 (⟨goal 3, (2, 2), 0⟩ : State).board ∧ ¬ legal 3 ⟨goal 3, (2, 2), 0⟩ 1 := by decide
+
+/-- the state part holds on ANY board (well-formed or not): board and blank untouched, only the step is counted, and the
+episode ends only for another cause -/
+theorem sliding_illegal_ignored_any_board (cfg : Cfg) (s : State) (a : Nat) (ha : a < 4) (hl : ¬ legal cfg.n s a) :
     (step cfg s (a : Int)).1.puzzle = s.puzzle ∧ (step cfg s (a : Int)).1.empty = s.empty ∧
     (step cfg s (a : Int)).1.stepCount = s.stepCount + 1 ∧
     ((step cfg s (a : Int)).2.stepType = .last → s.puzzle = goal cfg.n ∨ cfg.timeLimit ≤ s.stepCount + 1) :=
@@ -49,6 +67,33 @@ theorem sliding_sparse_reward (n : Nat) (next : Grid Int) :
   simp [sparseReward, isSolved_iff]
 
 example : Inv 3 (⟨[[1, 2, 3], [4, 0, 6], [7, 5, 8]], (1, 1), 0⟩ : State).board := by decide
+
+/-- sparse reward function, EPISODE level: an episode (all steps before the last one are MID) from ANY state under ANY action
+values returns 1 if it ends on the goal board and 0 otherwise (`returnOf` = sum of the rewards listed by `run`) -/
+theorem sliding_sparse_return (cfg : Cfg) (hd : cfg.dense = false) (as : List Int) (a : Int) (s : State)
+    (hmid : ∀ r ∈ run cfg s as, r.2.stepType = .mid) :
+    returnOf (run cfg s (as ++ [a])) = if (finalState cfg s (as ++ [a])).puzzle = goal cfg.n then 1 else 0 :=
+  sparse_return cfg hd as a s hmid
+
+example : ∀ r ∈ run ⟨2, false, 9⟩ ⟨[[0, 1], [3, 2]], (0, 0), 0⟩ [1], r.2.stepType = .mid := by decide
+
+/-- dense reward function: ANY play (legal or not) from a well-formed board that ends on the goal returns
+`n² − (number of correct cells at the start)` — compare `sliding_sparse_return`: 1 -/
+theorem sliding_dense_return_solved (cfg : Cfg) (hd : cfg.dense = true) (as : List Nat) (s : State)
+    (hs : Inv cfg.n s.board) (ha : ∀ a ∈ as, a < 4) (hfin : (play cfg s as).1.puzzle = goal cfg.n) :
+    (play cfg s as).2 = ((((cfg.n * cfg.n : Nat) : Int) - correct cfg.n s.puzzle : Int) : Rat) :=
+  dense_return_solved cfg hd as s hs ha hfin
+
+/-- dense and sparse returns DIFFER for this environment (and the documentation does not promise equality: dense = change in
+the number of correctly placed tiles, sparse = 1 iff solved): on the 2×2 board one move from the goal the same legal action
+ends both episodes (LAST) on the goal, with dense return 2 = n² − (correct tiles at the start) and sparse return 1 -/
+theorem sliding_dense_ne_sparse_witness :
+    let s : State := ⟨[[1, 2], [0, 3]], (1, 0), 0⟩
+    Inv 2 s.board ∧ legal 2 s 1 ∧
+    (step ⟨2, true, 5⟩ s 1).2.stepType = .last ∧ (step ⟨2, false, 5⟩ s 1).2.stepType = .last ∧
+    (step ⟨2, true, 5⟩ s 1).1 = (step ⟨2, false, 5⟩ s 1).1 ∧ (step ⟨2, true, 5⟩ s 1).1.puzzle = goal 2 ∧
+    (play ⟨2, true, 5⟩ s [1]).2 = 2 ∧ (play ⟨2, false, 5⟩ s [1]).2 = 1 ∧ correct 2 s.puzzle = 2 := by
+  decide +kernel
 end Props.C08
 
 namespace Props.C09
@@ -77,6 +122,30 @@ theorem sliding_last_iff (cfg : Cfg) (s : State) (a : Int) :
 
 theorem sliding_step_count (cfg : Cfg) (s : State) (a : Int) :
     (step cfg s a).1.stepCount = s.stepCount + 1 := step_count cfg s a
+
+/-- EPISODE level (`run` = the L1 `step` iterated, no auto-reset): from any state with step count 0 (every reset state), for
+ANY action values and any time limit `T > 0`, if at least `T` actions are played then the first LAST comes at a step `k` with
+`0 < k ≤ T` — never later; all steps before it are MID on boards that are not the goal; and if none of the first `T − 1` boards
+is the goal then `k = T` exactly — never earlier -/
+theorem sliding_episode_ends_by_limit (cfg : Cfg) (T : Nat) (hT : cfg.timeLimit = (T : Int)) (hpos : 0 < T) (s0 : State)
+    (h0 : s0.stepCount = 0) (as : List Int) (hlen : T ≤ as.length) :
+    ∃ k, 0 < k ∧ k ≤ T ∧
+      (∃ r, (run cfg s0 as)[k - 1]? = some r ∧ r.2.stepType = .last) ∧
+      (∀ j, j < k - 1 → ∃ r, (run cfg s0 as)[j]? = some r ∧ r.2.stepType = .mid ∧ r.1.puzzle ≠ goal cfg.n) ∧
+      ((∀ j r, j < T - 1 → (run cfg s0 as)[j]? = some r → r.1.puzzle ≠ goal cfg.n) → k = T) := by
+  obtain ⟨k, h1, h2, ⟨e1, e2, _⟩, h4⟩ := episode_ends_by_limit cfg T hT hpos s0 h0 as hlen
+  refine ⟨k, h1, h2, e1, ?_, ?_⟩
+  · intro j hj
+    obtain ⟨r, hr, hm, ho⟩ := e2 j hj
+    exact ⟨r, hr, hm, by simpa using ho⟩
+  · intro hno
+    exact h4 (fun j r hj hr => by simpa using hno j r hj hr)
+
+/-- `run` is nothing but the iteration of `step` -/
+theorem sliding_run_unfold (cfg : Cfg) (s : State) (a : Int) (as : List Int) :
+    run cfg s [] = [] ∧ run cfg s (a :: as) = step cfg s a :: run cfg (step cfg s a).1 as := ⟨rfl, rfl⟩
+
+example : (reset ⟨3, true, 4⟩ [0, 3]).1.stepCount = 0 ∧ (4 : Nat) ≤ ([0, 1, 2, 3, 0] : List Int).length := ⟨rfl, by decide⟩
 end Props.C11
 
 namespace Props.C12
@@ -87,7 +156,31 @@ theorem sliding_obs_faithful (cfg : Cfg) (s : State) (a : Int) :
 /-- … and that function is the documented one: board, blank position, legality of the four directions,
 step count -/
 theorem sliding_observe_documented (n : Nat) (s : State) : observe n s = observeL2 n s := observe_eq n s
+
+/-- the observation returned by `reset` is the same (documented) function of the reset state, with step count 0 -/
+theorem sliding_reset_obs_faithful (cfg : Cfg) (draws : List Nat) :
+    (reset cfg draws).2.obs = observe cfg.n (reset cfg draws).1 ∧
+    (reset cfg draws).2.obs = observeL2 cfg.n (reset cfg draws).1 ∧
+    (reset cfg draws).1 = genState cfg.n draws ∧ (reset cfg draws).2.obs.stepCount = 0 := reset_obs cfg draws
 end Props.C12
+
+namespace Props.C03
+/-- `step` on ANY state (well-formed or not, before or after LAST) with ANY action value (in the action space or not) returns
+a protocol-conform timestep: never FIRST, scalar reward and discount, discount in [0, 1], MID never with zero discount, LAST
+with zero discount (`StepOK none false` is the predicate the driver evaluates on the implementation's timesteps) -/
+theorem sliding_step_protocol (cfg : Cfg) (s : State) (a : Int) :
+    StepOK none false (step cfg s a).2 = true ∧
+    (step cfg s a).2.stepType ≠ .first ∧ (step cfg s a).2.reward.length = 1 ∧
+    ((step cfg s a).2.discount = [0] ∨ (step cfg s a).2.discount = [1]) ∧
+    ((step cfg s a).2.stepType = .mid → (step cfg s a).2.discount = [1]) ∧
+    ((step cfg s a).2.stepType = .last → (step cfg s a).2.discount = [0]) :=
+  ⟨step_protocol cfg s a, step_protocol_explicit cfg s a⟩
+
+/-- `reset` (any draws) returns FIRST with reward 0 and discount 1 of the scalar shape -/
+theorem sliding_reset_protocol (cfg : Cfg) (draws : List Nat) :
+    ResetOK none (reset cfg draws).2 = true ∧ (reset cfg draws).2.stepType = .first ∧
+    (reset cfg draws).2.reward = [0] ∧ (reset cfg draws).2.discount = [1] := reset_protocol cfg draws
+end Props.C03
 
 namespace Props.C17
 /-- every legal move is the swap of the blank with the neighbour in that direction: the new board is the old
@@ -167,6 +260,29 @@ theorem sliding_reset_is_permutation (n : Nat) (hn : 0 < n) (draws : List Nat)
 theorem sliding_random_move_is_slide (n : Nat) (b : Board) (d : Nat) (h : Inv n b)
     (hv : validDraw n b d = true) : randomMove b d = slideB n b d :=
   randomMove_eq_slideB h ((mask_iff_legal n b d).1 hv)
+
+/-! #### the hypotheses `validDraws …` above are satisfiable (audit r3 entry 12) -/
+
+/-- for `n ≥ 2` some direction always has non-zero weight in `jax.random.choice` (blank on the board) -/
+theorem sliding_exists_validDraw (n : Nat) (hn : 2 ≤ n) (b : Board) (hb : Inv n b) :
+    ∃ d, d < 4 ∧ validDraw n b d = true := exists_validDraw hn hb.2.1
+
+/-- for `n ≥ 2` and every number of random moves there is a tape of possible draws (so `sliding_walk_solvable`,
+`sliding_reset_is_permutation`, `sliding_reachable_of_reset_and_play`, `…_reset_obs_in_bounds` are not vacuous) -/
+theorem sliding_exists_valid_tape (n : Nat) (hn : 2 ≤ n) (len : Nat) :
+    ∃ ds : List Nat, ds.length = len ∧ (∀ d ∈ ds, d < 4) ∧ validDraws n (startBoard n) ds = true :=
+  exists_valid_tape hn len
+
+/-- `n = 1` (opt-in finding): NO draw is possible, the only valid tape is the empty one — for `num_random_moves > 0` the
+generator theorems say nothing, and the implementation (`jax.random.choice` with an all-zero weight vector returns row 0 = UP)
+walks off the board: `SlidingTilePuzzle(RandomWalkGenerator(grid_size=1, num_random_moves=1)).reset(PRNGKey(0))` has
+`empty_tile_position = (-1, 0)`, which its own `observation_spec` rejects.  The model replayed on that draw agrees. -/
+theorem sliding_n1_witness :
+    (∀ ds, validDraws 1 (startBoard 1) ds = true ↔ ds = []) ∧
+    (walk 1 [0]).2 = (-1, 0) ∧ ¬ Inv 1 (walk 1 [0]) ∧
+    (obsSpec ⟨1, true, 5⟩).valid (toNValue (reset ⟨1, true, 5⟩ [0]).2.obs) = false ∧
+    (obsSpec ⟨1, true, 5⟩).valid (toNValue (reset ⟨1, true, 5⟩ []).2.obs) = true :=
+  ⟨validDraws_one, by decide, by decide, by decide, by decide⟩
 end Props.C10
 
 namespace Props.C01
@@ -196,4 +312,64 @@ theorem sliding_inRange_invariant (cfg : Cfg) :
   ⟨inRange_of_inv cfg.n, step_board_inRange cfg⟩
 
 example : InRange 3 (⟨[[1, 2, 3], [4, 0, 6], [7, 5, 8]], (1, 1), 0⟩ : State).board := by decide
+
+/-! #### membership in the DECLARED specs (structure, shapes, dtypes and bounds; audit r3 entry 9) -/
+open Sp PzS
+
+/-- the model's `obsSpec` / `actionSpec` / reward and discount specs ARE the specs generated from the real spec objects
+(Gen/Specs.lean) for the catalogue configuration of SlidingTilePuzzle -/
+theorem sliding_obsSpec_generated :
+    prefixed "observation_spec." (obsSpec ⟨3, true, 15⟩) = declared "slidingtile-3" "observation_spec." ∧
+    [("action_spec", actionSpec)] = declared "slidingtile-3" "action_spec" ∧
+    [("reward_spec", rewardSpec)] = declared "slidingtile-3" "reward_spec" ∧
+    [("discount_spec", discountSpec)] = declared "slidingtile-3" "discount_spec" := by
+  refine ⟨by decide, by decide, by decide, by decide⟩
+
+/-- the `reset` observation (ALL sizes n ≥ 1, any tape of possible draws, time limit ≥ 0) is accepted by
+`observation_spec.validate`: fields `puzzle`, `empty_tile_position`, `action_mask`, `step_count`; shapes `(n, n)`, `(2,)`, `(4,)`,
+`()`; dtypes int32, int32, bool, int32; bounds [0, n² − 1], [0, n − 1], [0, 1], [0, T] -/
+theorem sliding_reset_obs_valid (cfg : Cfg) (hn : 0 < cfg.n) (hT : 0 ≤ cfg.timeLimit) (draws : List Nat)
+    (hv : validDraws cfg.n (startBoard cfg.n) draws = true) :
+    (obsSpec cfg).valid (toNValue (reset cfg draws).2.obs) = true := reset_obs_valid cfg hn hT draws hv
+
+/-- the same for every `step` observation up to and including the terminal one, for every action of the action space (legal or
+not); hypotheses = the invariants `Inv` (C09) and `InRange` (above), which hold from `reset` on and are preserved by every step;
+the time limit has not been reached before the step -/
+theorem sliding_step_obs_valid (cfg : Cfg) (s : State) (a : Nat) (ha : a < 4) (hi : Inv cfg.n s.board)
+    (hr : InRange cfg.n s.board) (hs : 0 ≤ s.stepCount ∧ s.stepCount < cfg.timeLimit) :
+    (obsSpec cfg).valid (toNValue (step cfg s (a : Int)).2.obs) = true := step_obs_valid cfg s a ha hi hr hs
+
+example : (obsSpec ⟨2, true, 7⟩).valid (toNValue (observe 2 ⟨goal 2, (1, 1), 8⟩)) = false ∧
+    (obsSpec ⟨2, true, 7⟩).valid (toNValue (observe 2 ⟨goal 3, (1, 1), 0⟩)) = false ∧
+    (obsSpec ⟨2, true, 7⟩).valid (toNValue (observe 2 ⟨goal 2, (1, 2), 0⟩)) = false ∧
+    (obsSpec ⟨2, true, 7⟩).valid (toNValue (observe 2 ⟨goal 2, (1, 1), 7⟩)) = true := by decide
+
+/-- reward and discount of every `step` (ALL states, ALL action values, both reward functions) and of `reset` are accepted by
+`reward_spec` (Array((), float)) and `discount_spec` (BoundedArray((), float, 0, 1)) -/
+theorem sliding_reward_discount_valid (cfg : Cfg) (s : State) (a : Int) (draws : List Nat) :
+    rewardSpec.valid (scalarArr (step cfg s a).2.reward) = true ∧
+    discountSpec.valid (scalarArr (step cfg s a).2.discount) = true ∧
+    rewardSpec.valid (scalarArr (reset cfg draws).2.reward) = true ∧
+    discountSpec.valid (scalarArr (reset cfg draws).2.discount) = true :=
+  ⟨(step_reward_discount_valid cfg s a).1, (step_reward_discount_valid cfg s a).2,
+   (reset_reward_discount_valid cfg draws).1, (reset_reward_discount_valid cfg draws).2⟩
+
+/-- `action_spec.generate_value()` = 0 (UP): the action spec is well-formed, the generated value is a member of it, and `step`
+answers it in EVERY state (legal there or not) with a protocol-conform timestep; membership in `action_spec` is `0 ≤ a < 4` -/
+theorem sliding_accepts_generate_value (cfg : Cfg) (s : State) :
+    actionSpec.WF = true ∧ actionSpec.valid actionSpec.generate = true ∧ actionSpec.generate = actionArr 0 ∧
+    StepOK none false (step cfg s 0).2 = true := accepts_generate_value cfg s
+
+theorem sliding_action_spec_iff (a : Int) : actionSpec.valid (actionArr a) = true ↔ 0 ≤ a ∧ a < 4 := actionSpec_valid_iff a
+
+/-- the step count of every observation of an episode up to and including the terminal one lies in [0, time_limit] -/
+theorem sliding_episode_step_count_in_bounds (cfg : Cfg) (T : Nat) (hT : cfg.timeLimit = (T : Int)) (hpos : 0 < T)
+    (s0 : State) (h0 : s0.stepCount = 0) (as : List Int) (hlen : T ≤ as.length) :
+    ∃ k, 0 < k ∧ k ≤ T ∧ (∃ r, (run cfg s0 as)[k - 1]? = some r ∧ r.2.stepType = .last) ∧
+      ∀ j, j < k → ∃ r, (run cfg s0 as)[j]? = some r ∧ 0 ≤ r.2.obs.stepCount ∧ r.2.obs.stepCount ≤ cfg.timeLimit := by
+  obtain ⟨k, h1, h2, ⟨e1, _, e3⟩, _⟩ := episode_ends_by_limit cfg T hT hpos s0 h0 as hlen
+  refine ⟨k, h1, h2, e1, fun j hj => ?_⟩
+  obtain ⟨r, hr, hb⟩ := e3 j hj
+  refine ⟨r, hr, ?_⟩
+  rw [run_obs_count cfg s0 as r (List.mem_of_getElem? hr), hT]; exact hb
 end Props.C01
